@@ -67,9 +67,9 @@ def step (S : Spec) (V : Env) (validVer : Nat â†’ Bool) (rootAttrs : List (Nat Ã
   | ["rmattr", x, a] => match E x, a.toNat? with
     | some x, some a => some (applyOp S V rootAttrs w (.rmattr x a)) | _, _ => some (w, "bad-op")
   | ["move", p, x] => match E p, E x with
-    | some p, some x => some (sh (opMove S V w p x none)) | _, _ => some (w, "bad-op")
+    | some p, some x => some (sh (opMoveAny S V w p x none)) | _, _ => some (w, "bad-op")
   | ["move", p, x, q] => match E p, E x, q.toNat? with
-    | some p, some x, some q => some (sh (opMove S V w p x (some q))) | _, _, _ => some (w, "bad-op")
+    | some p, some x, some q => some (sh (opMoveAny S V w p x (some q))) | _, _, _ => some (w, "bad-op")
   | ["copy", p, x] => match E p, E x with
     | some p, some x => some (sh (opCopy S V w p x none)) | _, _ => some (w, "bad-op")
   | ["copy", p, x, q] => match E p, E x, q.toNat? with
